@@ -84,6 +84,22 @@ func flvDriver(env *Env) error {
 				}
 				tw.Emit(M{"ev": "Func", "t": st.T, "n": st.N, "ts": st.Ts, "fields": f,
 					"payloadOk": bytes.Equal(p, payload), "lal": lalReadBack(b), "total": total})
+				// re-timestamp the tag in place (Tag.ModTagTimestamp) to the previous step's timestamp
+				if i > 0 {
+					ts2 := sc.Steps[i-1].Ts
+					tag, err := httpflv.ReadTag(bytes.NewReader(b))
+					if err == nil {
+						tag.ModTagTimestamp(proj.FromLimbs(ts2))
+						f2, p2, total2 := proj.ParseFlvTag(tag.Raw)
+						if f2 == nil {
+							f2 = &proj.FlvTagFields{Type: -1}
+						}
+						lal := lalReadBack(tag.Raw)
+						lal["hdrTs"] = proj.Limbs(tag.Header.Timestamp)
+						tw.Emit(M{"ev": "Mod", "t": st.T, "n": st.N, "ts": ts2, "from": st.Ts, "fields": f2,
+							"payloadOk": bytes.Equal(p2, payload), "lal": lal, "total": total2})
+					}
+				}
 			}
 		case "session":
 			flvSession(&sc, tw, tmp)
